@@ -20,7 +20,7 @@ DEFAULTS = {"soma": "soma_group", "axon": "axon_group", "dendrite": "dendrite_gr
 DEFAULT_NAMES = ["all", "soma_group", "axon_group", "dendrite_group"]
 KNOWN_KEY = "C15:group-id-used-with-two-segment-types"
 # dend_1/dend_01 and sec1/sec01 have the same natural-sort key and are different ids
-USER_GROUPS = ["dend_01", "sec01", "dend_1", "dend_2", "dend_10", "axon_1", "axon_2", "soma_0", "sec1", "sec2", "sec10", "apical", "basal", "g", "h"]
+USER_GROUPS = ["dend_01", "sec007", "sec7", "Dend_1", "sec01", "dend_1", "dend_2", "dend_10", "axon_1", "axon_2", "soma_0", "sec1", "sec2", "sec10", "apical", "basal", "g", "h"]
 
 
 def seg(**kw):
@@ -37,6 +37,15 @@ CORPUS = [
     {"init": "factory", "kind": "corpus:explicit-ids-not-ascending-then-duplicate",
      "ops": [seg(seg_id=10), seg(seg_id=11, parent=0, ty="dendrite"), seg(seg_id=5, parent=0, ty="axon"),
              seg(seg_id=6, parent=2, ty="axon", frac=0, frac_int=True), seg(seg_id=10, parent=1, ty="dendrite")]},
+    {"init": "factory", "kind": "corpus:automatic-id-skips-several-taken-ids",
+     "ops": [seg(seg_id=2), seg(seg_id=3, parent=0, ty="dendrite"), seg(seg_id=4, parent=1, ty="dendrite"),
+             seg(parent=0, ty="axon"), seg(parent=0, ty="axon"), seg(seg_id=1, parent=3, ty="axon"), seg(parent=5, ty="axon"),
+             {"op": "unbranched", "npoints": 4, "parent": 0, "frac": 0, "frac_int": True, "group": "sec7", "conv": True,
+              "ty": "dendrite", "reorder": True, "optimise": True}]},
+    {"init": "factory", "kind": "corpus:group-ids-differ-by-leading-zeros-and-case",
+     "ops": [seg(), seg(parent=0, group="sec7", ty="axon"), seg(parent=0, group="sec007", ty="axon"),
+             seg(parent=0, group="Dend_1", ty="dendrite"), seg(parent=0, group="dend_1", ty="dendrite"),
+             seg(parent=0, group="dend_01", ty="dendrite", optimise=False, reorder=False)]},
     {"init": "factory", "kind": "corpus:group-ids-equal-under-natural-sort",
      "ops": [seg(), seg(parent=0, group="dend_1", ty="dendrite"), seg(parent=0, group="dend_01", ty="dendrite"),
              seg(parent=1, group="dend_1", ty="dendrite", frac=0, frac_int=True)]},
